@@ -26,7 +26,7 @@ tvars == <<vars, l, nconn>>
 Ev == Trace[l]
 IsEvent(e) == l <= Len(Trace) /\ Ev.ev = e /\ l' = l + 1
 
-TraceInit == l = 1 /\ nconn = 0 /\ a = CHOOSE c \in Cases : TRUE /\ o = Rejected /\ pc = "end"
+TraceInit == l = 1 /\ nconn = 0 /\ a = (CHOOSE c \in Cases : TRUE) /\ o = Rejected /\ pc = "end"
 
 Reset ==
     /\ IsEvent("Case")
